@@ -582,3 +582,32 @@ Proof.
   - rewrite (mesh_equal_sym_imp rel abs A B NA NB E1) in E2. discriminate.
   - rewrite (mesh_equal_sym_imp rel abs B A NB NA E2) in E1. discriminate.
 Qed.
+
+(* ------------------------------------------------------------------ the retry ladder (C03) *)
+(* a positive verdict of the ladder always stems from a positive equality check of one of the view pairs *)
+Theorem ladder_pass_sound eq dd dr bs v :
+  fst (ladder eq dd dr bs v) = true ->
+  (let '(a, b) := lv_as_is v in eq a b = true) \/ (let '(a, b) := lv_extended v in eq a b = true) \/
+  (let '(a, b) := lv_sorted_points v in eq a b = true) \/ (let '(a, b) := lv_sorted_cells v in eq a b = true).
+Proof.
+  unfold ladder. destruct (lv_as_is v) as [a0 b0]. destruct (eq a0 b0) eqn:E0; [intros _; left; reflexivity|].
+  destruct (lv_extended v) as [a1 b1].
+  destruct (negb (space_dim a0 =? space_dim b0) && negb dd && eq a1 b1) eqn:E1.
+  - intros _. right. left. apply andb_true_iff in E1. tauto.
+  - destruct (dr || bs); [simpl; discriminate|].
+    destruct (lv_sorted_points v) as [a2 b2]. destruct (eq a2 b2) eqn:E2; [intros _; right; right; left; reflexivity|].
+    destruct (lv_sorted_cells v) as [a3 b3]. simpl. intro H. right. right. right. exact H.
+Qed.
+
+(* with reordering disabled (or both meshes structured) nothing beyond the extended views is ever accepted *)
+Theorem ladder_no_reorder eq dd bs v :
+  fst (ladder eq dd true bs v) = true ->
+  (let '(a, b) := lv_as_is v in eq a b = true) \/ (dd = false /\ let '(a, b) := lv_extended v in eq a b = true).
+Proof.
+  unfold ladder. destruct (lv_as_is v) as [a0 b0]. destruct (eq a0 b0) eqn:E0; [intros _; left; reflexivity|].
+  destruct (lv_extended v) as [a1 b1].
+  destruct (negb (space_dim a0 =? space_dim b0) && negb dd && eq a1 b1) eqn:E1.
+  - intros _. right. apply andb_true_iff in E1. destruct E1 as [E1 E2]. apply andb_true_iff in E1. destruct E1 as [_ E1].
+    apply negb_true_iff in E1. tauto.
+  - simpl. discriminate.
+Qed.
